@@ -698,6 +698,10 @@ impl Index {
             Some(&reorg::Error::Recoverable { height, depth }) => {
               Reorg::handle_reorg(self, height, depth)?;
             }
+            Some(&reorg::Error::Uncommitted { .. }) => {
+              // the write transaction was dropped, start over from the last
+              // commit
+            }
             Some(&reorg::Error::Unrecoverable) => {
               self
                 .unrecoverably_reorged
